@@ -902,6 +902,7 @@ func (c *control) dirInt(colon, at bool, params []any, base int) {
 		p.Escape = false
 		p.Readably = false
 		p.Base = 10
+		p.Radix = false
 		if ss, ok := ta.(slip.String); ok {
 			out = []byte(ss)
 		} else {
